@@ -70,6 +70,9 @@ GROUPS = {
     ("src/arch/generic/packedpair.rs", r"impl<V: Vector> Finder<V> \{", "PPFinder", ["new"])],
   "PortablePrefilter": [
     ("src/arch/all/packedpair/mod.rs", r"impl Finder \{", "PFinder", ["find_prefilter"])],
+  "TwoWayDispatch": [
+    ("src/arch/all/twoway.rs", r"impl Finder \{", "Finder", ["find_with_prefilter"]),
+    ("src/arch/all/twoway.rs", r"impl FinderRev \{", "FinderRev", ["rfind"])],
   "Pre": [
     ("src/memmem/searcher.rs", r"impl<'a> Pre<'a> \{", "Pre", ["find", "is_effective"])],
   "TopLevel": [
@@ -117,6 +120,12 @@ ORACLES = {
         "rabinkarp::FinderRev::new().rfind": ("o_rk_rfind", [("recv",), 0], "Option<usize>", "CodeRabinKarp.FinderRev -> list N -> option N"),
         "FinderRev::new().rfind": ("o_finder_rfind", [("inner", 0), 0], "Option<usize>", "list N -> list N -> option N")},
     ("PFinder", "find_prefilter"): {"memchr": ("o_memchr", [0, 1], "Option<usize>", "N -> list N -> option N")},
+    ("Finder", "find_with_prefilter"): {
+        "self.find_small_imp": ("o_small", [3], "Option<usize>", "N -> option N"),
+        "self.find_large_imp": ("o_large", [3], "Option<usize>", "N -> option N")},
+    ("FinderRev", "rfind"): {
+        "self.rfind_small_imp": ("o_rsmall", [2], "Option<usize>", "N -> option N"),
+        "self.rfind_large_imp": ("o_rlarge", [2], "Option<usize>", "N -> option N")},
     ("Pre", "find"): {"self.prestrat.find": ("o_prefilter", [0], "Option<usize>", "list N -> option N")},
     ("SearcherRev", "rfind"): {
         "crate::memrchr": ("o_memrchr", [0, 1], "Option<usize>", "N -> list N -> option N"),
@@ -138,6 +147,7 @@ STRUCTS = {
     "SearcherRev": {"SearcherRev": "src/memmem/searcher.rs"},
     "TopLevel": {},
     "Pre": {},
+    "TwoWayDispatch": {},
     "PortablePrefilter": {},
     "PackedPairNew": {},
     "Shift": {},
@@ -145,7 +155,8 @@ STRUCTS = {
     "TwoWayNew": {"TwoWay": "src/arch/all/twoway.rs", "Finder": "src/arch/all/twoway.rs", "FinderRev": "src/arch/all/twoway.rs"},
 }
 # a group may call the functions and use the types of other groups (their Code<G>.v is imported, not repeated)
-GROUP_IMPORTS = {"TwoWayNew": ["ByteSet", "Suffix", "Shift"], "PackedPairNew": ["Pair"], "Pre": ["Prefilter"], "PortablePrefilter": ["Pair"]}
+GROUP_IMPORTS = {"TwoWayNew": ["ByteSet", "Suffix", "Shift"], "PackedPairNew": ["Pair"], "Pre": ["Prefilter"], "PortablePrefilter": ["Pair"],
+                 "TwoWayDispatch": ["TwoWayNew"]}
 # Types and functions of OTHER modules used with their module path (two modules define a `FinderRev`): the generated
 # file `Require`s the other group's file without importing it and uses qualified names.
 # group -> (required groups, {rust type path: Coq type}, {rust call path: (Coq function, takes fuel, param types, result type)})
@@ -163,6 +174,8 @@ QUALIFIED["TopLevel"] = (["RabinKarp"],
 QUAL_TYPES = {}
 for _g, (_r, _t, _c) in QUALIFIED.items():
     QUAL_TYPES.update(_t)
+# parameters that are only handed on to oracles (their type is outside the subset); any other use fails closed
+IGNORED_PARAMS = {("Finder", "find_with_prefilter"): ["pre"]}
 # the vector type parameter V of the generic packed-pair finder: V::BYTES is a parameter of the generated
 # definition, V::splat(b) is represented by the byte b (a vector whose lanes all hold b)
 VECTOR_PARAM = "V"
@@ -340,6 +353,8 @@ class P:
                 depth += 1
             if v in (")", ">", "]"):
                 depth -= 1
+            if v == ">>":
+                depth -= 2
             out.append(self.eat())
         return "".join(out).replace("&'a", "&").replace("mut", "mut ")
 
@@ -2009,8 +2024,14 @@ def translate(repo, group, _emit=True):
     structs, enums, parsed = collect(repo, group, src)
     own_structs, own_enums = dict(structs), dict(enums)
     fnsigs = {}
-    imports = GROUP_IMPORTS.get(group, [])
-    for g in imports:
+    imports = []
+    def closure(g_):
+        for d_ in GROUP_IMPORTS.get(g_, []):
+            closure(d_)
+            if d_ not in imports:
+                imports.append(d_)
+    closure(group)
+    for g in GROUP_IMPORTS.get(group, []):
         # translate the imported group (output discarded) to learn its types, signatures and which functions take fuel
         _, isigs, istructs, ienums = translate(repo, g, _emit=False)
         fnsigs.update(isigs)
@@ -2050,6 +2071,8 @@ def translate(repo, group, _emit=True):
             env["self"] = [("self", prefix)]
             binders.append(f"(self : {prefix})")
         for pn, pt in fn["params"]:
+            if pn in IGNORED_PARAMS.get((prefix, fn["name"]), []):
+                continue
             pt2 = pt.replace("Self", prefix)
             if pt2 in fn.get("generics", []):
                 pt2 = "fn(u8)->u8"       # the only generic parameter of the subset: a pure byte ranker
